@@ -261,3 +261,119 @@ contract(
     trusted_reason="multi-edge polylines (outer for-loop over a python list with shapely in the body): BOUNDED native check; the single-edge case is proved for any number of inserted points",
     native_samples=_densify_samples,
 )
+
+
+# ---- to_crs: what gets projected is the densified geometry (data-flow proof on the real method) ---------------------------------
+#
+# The real, shadow-loaded Geometry.to_crs runs on a stand-in receiver.  Every collaborator (segmented,
+# _to_crs, chop_along_antimeridian, clip_lon180, _auto_resolution, the CRS) is a ghost that records what
+# it was applied to, so the result carries its provenance as a term:
+#     clip(fix?(proj(chop(seg(self, r)))))   /   fix?(proj(seg(self, r)))   /   self
+# The lemma states which term must come out for every combination of the arguments.
+
+
+class _Prov:
+    """ghost geometry: `tag` is the operation that produced it, `args` what it was applied to"""
+
+    def __init__(self, tag, args=(), crs=None, valid=True):
+        self.tag, self.args, self.crs, self._valid = tag, args, crs, valid
+
+    def segmented(self, resolution):
+        return _Prov("seg", (self, resolution), self.crs, valid=self._valid)
+
+    def _to_crs(self, crs):
+        return _Prov("proj", (self, crs), crs, valid=self._valid)
+
+    @property
+    def is_valid(self):
+        return self._valid
+
+    def dropna(self):
+        return _Prov("dropna", (self,), self.crs, valid=self._valid)
+
+    def buffer(self, d):
+        return _Prov("buffer", (self, d), self.crs)
+
+    @property
+    def geom_type(self):
+        return "Polygon"
+
+
+class _GhostCRS:
+    __hash__ = None
+
+    def __init__(self, cls, geographic):
+        self.cls, self.geographic = cls, geographic
+
+    def __eq__(self, o):
+        if o is None:
+            return False
+        return self.cls == o.cls
+
+    def __ne__(self, o):
+        return Not(self == o)
+
+
+def _chain(g):
+    """provenance as a tuple of tags, outermost first"""
+    out = []
+    while isinstance(g, _Prov) and g.tag != "input":
+        out.append(g.tag)
+        g = g.args[0]
+    return tuple(out), g
+
+
+def _find(g, tag):
+    while isinstance(g, _Prov) and g.tag != "input":
+        if g.tag == tag:
+            return g
+        g = g.args[0]
+    return None
+
+
+def _lemma_to_crs_flow(src_cls, dst_cls, geographic, resolution, wrapdateline, check_and_fix, valid):
+    m = repo(GEOM)
+    me = _Prov("input", (), _GhostCRS(src_cls, False), valid=valid)
+    dst = _GhostCRS(dst_cls, geographic)
+    saved = (m.norm_crs_or_error, m.chop_along_antimeridian, m.clip_lon180, m._auto_resolution)
+    AUTO = Real(gt=0).make("auto_resolution") if symbolic() else 0.123
+    try:
+        m.norm_crs_or_error = lambda crs, ctx=None: crs
+        m.chop_along_antimeridian = lambda g, precision=0.1: _Prov("chop", (g, precision), g.crs, valid=getattr(g, "_valid", True))
+        m.clip_lon180 = lambda g, tol=1e-6: _Prov("clip", (g, tol), g.crs)
+        m._auto_resolution = lambda g: (claim(g is me, "auto resolution is derived from the geometry being projected"), AUTO)[1]
+        out = m.Geometry.to_crs(me, dst, resolution, wrapdateline, check_and_fix=check_and_fix)
+    finally:
+        m.norm_crs_or_error, m.chop_along_antimeridian, m.clip_lon180, m._auto_resolution = saved
+    if bool(src_cls == dst_cls):
+        claim(out is me, "already in the target CRS: returned as is")
+        return
+    tags, root = _chain(out)
+    claim(root is me, "the result derives from the receiver")
+    claim(tags.count("proj") == 1 and _find(out, "proj").args[1] is dst, "projected exactly once, to the requested CRS")
+    import math as _m
+
+    densify = resolution is not None and not (isinstance(resolution, float) and not _m.isfinite(resolution))
+    seg = _find(out, "seg")
+    if densify:
+        want = AUTO if isinstance(resolution, str) else resolution
+        claim(seg is not None and seg.args[0] is me and seg.args[1] is want, "a resolution was requested: what is projected is segmented(resolution) of the receiver, on every branch")
+        claim("seg" in tags and "proj" in tags and tags.index("seg") == len(tags) - 1 and tags.index("proj") < tags.index("seg"), "densified in the source CRS, before projecting")
+    else:
+        claim(seg is None, "no resolution: no vertices are added")
+    if wrapdateline and geographic:
+        claim(tags[0] == "clip" and "chop" in tags and tags.index("chop") > tags.index("proj"), "date-line handling: chopped before projecting, clipped after")
+    else:
+        claim("chop" not in tags and "clip" not in tags, "no date-line handling unless requested for a geographic target")
+    fixed = "buffer" in tags or "dropna" in tags
+    claim(fixed == (check_and_fix and not valid), "repair only when asked for and the projected geometry is invalid")
+
+
+lemma(
+    "to_crs.densify_then_project",
+    ["C07"],
+    inputs=dict(src_cls=Int(), dst_cls=Int(), geographic=Bool(), resolution=OneOf(None, "auto", Real(gt=0), float("inf")), wrapdateline=Bool(), check_and_fix=Bool(), valid=Bool()),
+    body=_lemma_to_crs_flow,
+    unstub=[f"{GEOM}:Geometry.to_crs"],
+    note="data-flow of the real Geometry.to_crs over ghost collaborators: the argument of the projection (and of the date-line chopping) is the densified geometry",
+)
